@@ -16,6 +16,7 @@ LEVEL = 'fault_enumeration'
 ASSUMPTIONS = ['BIP173 only (constant 1 for every witness version, as the statement says); the expected prefix is given in lower case']
 
 CH = R.CHARSET
+UNICODE = ['\u212a', '\u0130', '\u0131', '\u017f', '\u0141', '\u0142', '\u20bf', '\uff11', '\uff51', '\u0261', '\u03a1', '\U0001f600', '\u00b9', '\u2460', '\u0661', '\u00df', '\ufb01']
 HRP_CHAIN = {'bc': 'mainnet', 'tb': 'testnet', 'bcrt': 'regtest'}
 
 
@@ -225,6 +226,35 @@ class RuleViolations(Family):
         return r, True
 
 
+class PrefixConfusion(Family):
+    """checksum-valid addresses whose real prefix merely *resembles* the expected one (extends it, contains it, is a
+    proper prefix of it, differs in case-insensitive or separator-looking ways): decoding under the expected prefix must
+    fail - substitution faults can never produce these because the checksum covers the prefix"""
+    name = 'prefix_confusion'
+    nontrivial_rule = 'every case'
+
+    def cases(self, shard, tier):
+        for want in ('bc', 'tb', 'bcrt'):
+            for real in (want + '1q', want + '1', want + 'q', want + '1' + want, want[:-1], want[1:], 'x' + want, want + want, want.upper(), want + '11', '1' + want,
+                         want + '1qqqqqqqq', 'b', 'bcr', 'bcrt1', 'tbc', 't'):
+                if real.lower() == want:
+                    continue
+                for ver in (0, 1):
+                    for l in (20, 32):
+                        yield (want, real, ver, l)
+
+    def check(self, case):
+        want_hrp, real, ver, l = case
+        s = R.encode(real.lower(), ver, C.fill(l, 3))
+        if real != real.lower():
+            s = s.upper()
+        if len(s) > 90:
+            return 'too-long', False
+        if R.decode(want_hrp, s) is not None:
+            raise HarnessError('reference accepts a foreign prefix')
+        return judge(want_hrp, s, what='prefix confusion (%r under %r)' % (real, want_hrp)), True
+
+
 class SingleFaults(Family):
     name = 'single_faults'
     engine = 'E3'
@@ -245,6 +275,10 @@ class SingleFaults(Family):
             yield ('del', shard, p, '')
             yield ('trunc', shard, p, '')
             yield ('caseflip', shard, p, '')
+        for p in range(len(a)):
+            for c in UNICODE:
+                yield ('sub', shard, p, c)
+                yield ('subupper', shard, p, c)
         for p in range(len(a) + 1):
             for c in list(CH) + ['1', 'b', 'B', ' ', 'Q']:
                 yield ('ins', shard, p, c)
@@ -260,6 +294,10 @@ class SingleFaults(Family):
         must = False
         if kind == 'sub':
             s = a[:p] + c + a[p + 1:]
+            must = True
+        elif kind == 'subupper':
+            u = a.upper()
+            s = u[:p] + c + u[p + 1:]
             must = True
         elif kind == 'del':
             s = a[:p] + a[p + 1:]
@@ -383,4 +421,4 @@ class Bursts(Family):
 
 
 def families(tier):
-    return [EncodeDecode(), RuleViolations(), SingleFaults(), DoubleSubs(), MultiSubs(), Bursts()]
+    return [EncodeDecode(), RuleViolations(), PrefixConfusion(), SingleFaults(), DoubleSubs(), MultiSubs(), Bursts()]
